@@ -395,6 +395,41 @@ func c03Loc(r *Run, l gts.Location, L, i, k int) {
 		m51, m31 := outerMarks(got)
 		first, last, _ := outerLeaves(l)
 		removed := func(x int) bool { return i <= x && x < i+k }
+		// THE PROPERTY'S CLAUSE on every shape ("an end whose residues were cut off becomes partial"): the first
+		// (last) residue READ was removed and something survives => the 5' (3') marker is set.  Where the outer
+		// leaf is a range that keeps a residue this is implied by the iff-clauses below (theorems
+		// expand_del_marks5/3_partial, guards outer5Kept / outer3Kept); every other shape — a first / last part
+		// wholly inside the removed span, a point at the end — is known finding K3M
+		// (Gts.C03.expand_del_marks5_cut_full_refuted / 3_cut_full_refuted).
+		kept5, kept3 := false, false
+		if fr, ok := first.l.(gts.Ranged); ok && len(mapDen(den(first.l), delMap(i, k))) > 0 {
+			_ = fr
+			kept5 = true
+		}
+		if lr, ok := last.l.(gts.Ranged); ok && len(mapDen(den(last.l), delMap(i, k))) > 0 {
+			_ = lr
+			kept3 = true
+		}
+		if removed(d[0].x) {
+			r.count("delete/marker-clause/5'-cut")
+			if !kept5 {
+				r.count("delete/marker-clause/5'-cut/outside-outer5Kept")
+				if !m51 {
+					r.fail(Failure{Oracle: "delete: an end whose residues were cut off becomes partial (5' end, first part removed altogether)", Op: line,
+						Got: encLoc(got), Want: "5' marker true", Finding: "K3M"})
+				}
+			}
+		}
+		if removed(d[len(d)-1].x) {
+			r.count("delete/marker-clause/3'-cut")
+			if !kept3 {
+				r.count("delete/marker-clause/3'-cut/outside-outer3Kept")
+				if !m31 {
+					r.fail(Failure{Oracle: "delete: an end whose residues were cut off becomes partial (3' end, last part removed altogether)", Op: line,
+						Got: encLoc(got), Want: "3' marker true", Finding: "K3M"})
+				}
+			}
+		}
 		if fr, ok := first.l.(gts.Ranged); ok && len(mapDen(den(first.l), delMap(i, k))) > 0 {
 			firstRes := fr.Start
 			if first.rev {
@@ -489,6 +524,7 @@ func propC03(r *Run) {
 		}
 	}
 	c03Refs(r)
+	c03RefsWrap(r)
 	// within / overlap (survival predicates)
 	for t := 0; t < nRandom/4; t++ {
 		LL := r.rangeL()
